@@ -105,6 +105,13 @@ class C10(Check):
                     exps.append({"kind": f"grid:{p}:content", "pipeline": p, "files": grid_world(p), "include": PIPELINES[p],
                                  "content_faults": [{"kind": fk, "pos": pos, "donor": 0}], "seam_faults": [],
                                  "exec": {"sched": {"seed": pos, "policy": "fifo", "line_p": 0.0}, "workers": 1}})
+            if p in ("detector-less", "sonar"):
+                # a special file carrying a selectable name: opening it for reading never returns (bounded liveness; the seam
+                # turns the open into SimHang instead of blocking the harness)
+                for pos in range(2):
+                    exps.append({"kind": f"grid:{p}:content", "pipeline": p, "files": grid_world(p), "include": PIPELINES[p],
+                                 "content_faults": [{"kind": "fifo", "pos": pos, "donor": 0}], "seam_faults": [],
+                                 "exec": {"sched": {"seed": pos, "policy": "fifo", "line_p": 0.0}, "workers": 1 + pos}})
             for fk in SEAM_FAULTS:
                 if p == "xml" and fk in ("transform-raise", "node-raise"):
                     continue
@@ -173,7 +180,7 @@ class C10(Check):
             d = os_dirname(donor_path)
             ext = ".xml" if exp["pipeline"] == "xml" else ".py"
             name = (d + "/" if d else "") + f"{POS_NAMES[cf['pos']]}_bad{j}{ext}"
-            data = corrupt(cf["kind"], dec(world["files"][donor_path]))
+            data = corrupt(cf["kind"], dec(world["files"][donor_path])) if cf["kind"] != "fifo" else None
             bad[name] = {"data": data, "kind": cf["kind"]}
             # findings for the bad file: the donor's findings retargeted (line numbers preserved unless shifted)
             shift = 2 if cf["kind"] == "latin1-cookie" else 0
@@ -193,8 +200,9 @@ class C10(Check):
         world_ref = dict(world, results=results)
         wf_files = dict(world["files"])
         for name, b in bad.items():
-            wf_files[name] = enc(b["data"])
-        world_fault = dict(world, files=wf_files, results=results)
+            if b["data"] is not None:
+                wf_files[name] = enc(b["data"])
+        world_fault = dict(world, files=wf_files, results=results, fifos=sorted(n for n, b in bad.items() if b["data"] is None))
         plan = []
         seam_info = []
         seen_targets = set()
@@ -278,6 +286,8 @@ class C10(Check):
                 res = (rf.get(cid) or [{}])[0]
                 failed = [x for x in (res.get("failedFiles") or []) if x.endswith("/" + name)]
                 ci = G.info(cid)
+                if kind == "fifo":
+                    continue  # not a regular file: leaving it out of the selection and listing it as failed are both acceptable
                 if kind == "empty" and pl != "xml":  # an empty module is valid Python; an empty XML document is not well-formed
                     if failed:
                         add("empty-file-reported-failed", kind, {"file": name, "codemod": cid})
